@@ -422,8 +422,10 @@ func (c *tunnelTimeMetrics) Describe(ch chan<- *prometheus.Desc) {
 }
 
 func (c *tunnelTimeMetrics) Collect(ch chan<- prometheus.Metric) {
-	tNow := now()
 	c.mu.Lock()
+	// Read the clock under the lock: a client registered between an earlier clock read and
+	// the lock would otherwise have a start time after `tNow` and a negative tunnel time.
+	tNow := now()
 	for ipKey, client := range c.activeClients {
 		c.reportTunnelTime(ipKey, client, tNow)
 	}
